@@ -354,9 +354,15 @@ func c05Run(r *vt.Run, c c05Case) {
 func checkC05(r *vt.Run) {
 	var rc c05Case
 	if r.ReplayInto(&rc) {
-		c05Run(r, rc)
+		var lc c05LiveCase
+		if r.ReplayInto(&lc) && lc.Live {
+			c05LiveRun(r, lc)
+		} else {
+			c05Run(r, rc)
+		}
 		return
 	}
+	defer checkC05Live(r)
 	idx := 0
 	run := func(c c05Case) {
 		idx++
